@@ -648,7 +648,7 @@ message_is_content_type(const struct message *msg, const char *needle)
 		return 0;
 
 	len = strlen(needle);
-	if (strncmp(type, needle, len) != 0 ||
+	if (strncasecmp(type, needle, len) != 0 ||
 	    (type[len] != ';' && type[len] != '\0'))
 		return 0;
 
@@ -684,11 +684,11 @@ message_decode_body(struct message *msg, const struct message *attachment)
 	const char *enc;
 
 	enc = message_get_header1(attachment, "Content-Transfer-Encoding");
-	if (enc != NULL && strcmp(enc, "base64") == 0) {
+	if (enc != NULL && strcasecmp(enc, "base64") == 0) {
 		msg->me_buf_dec = base64_decode(attachment->me_body);
 		if (msg->me_buf_dec == NULL)
 			warnx("%s: failed to decode body", msg->me_path);
-	} else if (enc != NULL && strcmp(enc, "quoted-printable") == 0) {
+	} else if (enc != NULL && strcasecmp(enc, "quoted-printable") == 0) {
 		msg->me_buf_dec = quoted_printable_decode(attachment->me_body);
 	} else {
 		msg->me_buf_dec = strdup(attachment->me_body);
@@ -983,7 +983,7 @@ parseboundary(const char *str, char **boundary)
 
 	needle = "multipart/";
 	len = strlen(needle);
-	if (strncmp(str, needle, len) != 0)
+	if (strncasecmp(str, needle, len) != 0)
 		return 0;
 	str += len;
 	for (; *str != '\0' && *str != ';'; str++)
@@ -995,7 +995,7 @@ parseboundary(const char *str, char **boundary)
 
 	needle = "boundary=\"";
 	len = strlen(needle);
-	if (strncmp(str, needle, len) != 0)
+	if (strncasecmp(str, needle, len) != 0)
 		return 0;
 	str += len;
 	p = str;
